@@ -38,6 +38,7 @@ func isCallTo(v ssa.Value, name string) (*ssa.Call, bool) {
 }
 
 func runBuild(c *Ctx) {
+	c.runKind()
 	p := c.P
 	bf := c.role("BUILD", "BuildFunc")
 	nf := c.role("BUILD", "NewFunc")
